@@ -127,7 +127,7 @@ Definition mkS e n p b a r af rf :=
 
 (* columns: 0 stage correspondence (0 agree, 1 model rejects/code accepts, 2 model accepts/code rejects,
    3 states differ, 4 reports differ, 10.. harness) | 1 inv after | 2 frame | 3 later stages did not rewrite the
-   state/report handed on (C09) | 4 C15 | 5 C16 | 6 C17 | 7 C18 | 8 C19 *)
+   state/report handed on (C09) | 4 C15 | 5 C16 | 6 C17 | 7 C18 | 8 C19 | 9 criteria changed only as reported (C07) *)
 Definition judge_stage (c : scase) : list nat :=
   let m := apply_bias (s_env c) (s_name c) (s_before c) (s_props c) in
   let ag := match m, s_after c with
@@ -141,7 +141,7 @@ Definition judge_stage (c : scase) : list nat :=
                 else if negb (report_close rep (s_report c)) then 4 else 20
             end in
   match s_after c with
-  | None => [ag; 0; 0; 0; 0; 0; 0; 0; 0]
+  | None => [ag; 0; 0; 0; 0; 0; 0; 0; 0; 0]
   | Some a =>
       let nm := s_name c in let p := s_props c in let b := s_before c in let r := s_report c in
       [ ag;
@@ -152,7 +152,8 @@ Definition judge_stage (c : scase) : list nat :=
         if String.eqb nm b_reversal then b2n (C16_ok p b a r) else 0;
         if String.eqb nm b_fatigue then b2n (C17_ok (s_env c) p b a r) else 0;
         if String.eqb nm b_concealment || String.eqb nm b_mixing then b2n (C18_ok nm p b a r) else 0;
-        if String.eqb nm b_anchoring then b2n (C19_ok (s_env c) p b a r) else 0 ]
+        if String.eqb nm b_anchoring then b2n (C19_ok (s_env c) p b a r) else 0;
+        b2n (crits_as_reported b a r) ]
   end.
 
 (** ** level sources (component level) *)
